@@ -318,7 +318,7 @@ impl Check for C03 {
             }
             s.push_str(&tok);
         }
-        let mut t = Trace::new("C03", Config { cols: 4, rows: 2, limit: None });
+        let mut t = Trace::new("C03", Config { cols: 2 + r.usize_below(12), rows: 2 + r.usize_below(5), limit: None });
         t.events.push(Event::Feed { s });
         t
     }
@@ -340,6 +340,38 @@ impl Check for C03 {
             Err(p) => Verdict::Violation { rule: "C03/panic".into(), detail: p },
             Ok(Some((rule, d))) => Verdict::Violation { rule, detail: d },
             Ok(None) => {
+                // end-to-end: a terminal fed the stream in arbitrary feed_str pieces must end up in
+                // the same visible state as one fed, function by function, the canonical rendering
+                // of what the reference parser dispatched
+                if n <= 600 {
+                    let cfg = &t.config;
+                    let e2e = catch_avt(|| {
+                        let mut a = crate::obs::build(cfg.cols.max(2), cfg.rows.max(2), None);
+                        let mut i = 0usize;
+                        let mut k = 1usize;
+                        while i < chars.len() {
+                            // deterministic but irregular piece lengths
+                            k = (k * 7 + 3) % 11 + 1;
+                            let e = (i + k).min(chars.len());
+                            let piece: String = chars[i..e].iter().collect();
+                            a.feed_str(&piece);
+                            i = e;
+                        }
+                        let mut b = crate::obs::build(cfg.cols.max(2), cfg.rows.max(2), None);
+                        let mut rp = RefParser::new();
+                        for ch in &chars {
+                            if let Some(rf) = rp.feed(*ch) {
+                                b.feed_str(&crate::model::parser::render(&rf));
+                            }
+                        }
+                        crate::obs::same_screen(&a, &b)
+                    });
+                    match e2e {
+                        Err(p) => return Verdict::Violation { rule: "C03/panic-end-to-end".into(), detail: p },
+                        Ok(Some(d)) => return Verdict::Violation { rule: "C03/end-to-end".into(), detail: format!("Vt fed the stream in pieces vs Vt fed the canonical rendering of the reference parser's functions: {}", d) },
+                        Ok(None) => st.bump("end_to_end_compared"),
+                    }
+                }
                 let mut d = crate::rng::Digest::new();
                 for c in &chars {
                     d.u64(*c as u64);
@@ -353,12 +385,12 @@ impl Check for C03 {
     }
     fn meta(&self) -> Meta {
         Meta {
-            rule: "parser-level lock-step of avt::parser::Parser with the reference parser, comparing after every character the public state and the returned Function (structurally): (a) single-step table over all scalar values x 14 states x backgrounds (enumerated, see extra_phase), each step followed by a dispatching final byte and CAN + fresh CUP/SGR; ESC Fe vs C1 twins from every state; (b) sampled sequence streams: all finals 0x40-0x7E x prefixes ? ! < = > x 0-2 intermediates x parameter shapes (empty, ;, :, 33+ parameters, 7+ sub-parts, 65535/65536/10^10), ESC finals, SGR colour forms incl. truncated ones, C0/C1 inside sequences, control strings, chaos tokens; (c) truncation faults followed by CAN / SUB / ESC / C1 / ST / BEL / nothing and then intact tokens (resynchronisation, stale-parameter leakage); non-trivial = stream of >= 2 characters; distinct = stream digests",
+            rule: "parser-level lock-step of avt::parser::Parser with the reference parser, comparing after every character the public state and the returned Function (structurally): (a) single-step table over all scalar values x 14 states x backgrounds (enumerated, see extra_phase), each step followed by a dispatching final byte and CAN + fresh CUP/SGR; ESC Fe vs C1 twins from every state; (b) sampled sequence streams: all finals 0x40-0x7E x prefixes ? ! < = > x 0-2 intermediates x parameter shapes (empty, ;, :, 33+ parameters, 7+ sub-parts, 65535/65536/10^10), ESC finals, SGR colour forms incl. truncated ones, C0/C1 inside sequences, control strings, chaos tokens; (d) end-to-end: a Vt fed the stream in irregular feed_str pieces vs a Vt fed the canonical rendering of each function the reference parser dispatched - same visible screen, cursor, cursor-key mode; (c) truncation faults followed by CAN / SUB / ESC / C1 / ST / BEL / nothing and then intact tokens (resynchronisation, stale-parameter leakage); non-trivial = stream of >= 2 characters; distinct = stream digests",
             assumptions: vec!["the reference parser (table from Williams' diagram + the four stated deviations) is the trusted base", "colour components are truncated to 8 bits as avt does; values > 255 are outside the statement", "Charset is matched through its Debug name (type not nameable from outside)"],
-            real: vec!["avt::parser::Parser"],
+            real: vec!["avt::parser::Parser", "avt::Vt (end-to-end twin)"],
             simulated: vec!["App (sequence producer)", "Pipe (truncation faults, resynchronisation characters)"],
             model: vec!["RefParser"],
-            probes: vec!["truncated_tokens", "functions_compared", "table_single_steps", "esc_fe_pairs"],
+            probes: vec!["truncated_tokens", "functions_compared", "table_single_steps", "esc_fe_pairs", "end_to_end_compared"],
             fault_kinds: vec!["truncated_tokens"],
         }
     }
